@@ -101,7 +101,9 @@ Definition run_ops {T} (S : SF T) (q : Z) (op : Z) (a : list (list Z)) : list (l
   match op with
   | 1 | 3 => out_sqrt F (sf_sqrt S x4)
   | 2 => match sf_leg S x4 with
-         | Some l => if l =? euler_leg F q x4 then ok [[l]] else err 8
+         | Some l => if l =? euler_leg F q x4
+                     (* the symbol and the three LegendreSymbol predicates is_zero / is_qr / is_qnr: a partition *)
+                     then ok [[l; Z.b2z (l =? 0); Z.b2z (l =? 1); Z.b2z (l =? -1)]] else err 8
          | None => panic
          end
   | 4 => out_pair F (ys_from_x (f0 F) (fadd F) (fmul F) (fneg F) (feqb F) (sf_ltb S) (sf_sqrt S) x4 x5 x6)
